@@ -83,7 +83,7 @@ theorem repulsion_closed (n : Nat) (ρ : Nat → ℝ) :
 
 macro "bond_tac" h:ident : tactic => `(tactic| (
   have hs := PairRegular.sqrt_ne $h
-  simp only [bondE, bondGrad, Prog.gradR, List.lookup, Prog.envR, distance, pos, two, Ex.evalD, Ex.evalR,
+  simp only [bondE, bondGrad, Prog.gradR, Prog.gradRaw, List.lookup, Prog.envR, distance, pos, two, Ex.evalD, Ex.evalR,
     bond_v0, bond_v1, bond_v2, bond_v3, bond_v4, bond_v5, bond_v6, bond_g0, bond_g1, bond_g2, bond_g3,
     bond_g4, bond_g5, Num.toReal]
   simp [Ex.evalR]
@@ -119,7 +119,7 @@ theorem bond_identity (ρ : Nat → ℝ) (h : PairRegular ρ) :
 macro "lj_tac" ρ:ident h:ident : tactic => `(tactic| (
   have hs := PairRegular.sqrt_ne $h
   have hpos : 0 ≤ ($ρ 0 - $ρ 3) ^ 2 + ($ρ 1 - $ρ 4) ^ 2 + ($ρ 2 - $ρ 5) ^ 2 := le_of_lt $h
-  simp only [ljE, ljGrad, Prog.gradR, List.lookup, Prog.envR, distance, pos, two, Ex.evalD, Ex.evalR,
+  simp only [ljE, ljGrad, Prog.gradR, Prog.gradRaw, List.lookup, Prog.envR, distance, pos, two, Ex.evalD, Ex.evalR,
     lj_v0, lj_v1, lj_v2, lj_v3, lj_v4, lj_v5, lj_v6, lj_v7, lj_g0, lj_g1, lj_g2, lj_g3,
     lj_g4, lj_g5, Num.toReal]
   simp [Ex.evalR, Num.toReal]
@@ -158,7 +158,7 @@ theorem lj_identity (ρ : Nat → ℝ) (h : PairRegular ρ) :
 
 macro "rep_tac" ρ:ident h:ident n:ident : tactic => `(tactic| (
   have hs := PairRegular.sqrt_ne $h
-  simp only [repulsionE, repulsionGrad, Prog.gradR, List.lookup, Prog.envR, distance, pos, Ex.evalD,
+  simp only [repulsionE, repulsionGrad, Prog.gradR, Prog.gradRaw, List.lookup, Prog.envR, distance, pos, Ex.evalD,
     Ex.evalR, repulsion_v0, repulsion_v1, repulsion_v2, repulsion_v3, repulsion_v4, repulsion_g0,
     repulsion_g1, repulsion_g2, repulsion_g3, repulsion_g4, repulsion_g5]
   generalize hS : √(($ρ 0 - $ρ 3) ^ 2 + ($ρ 1 - $ρ 4) ^ 2 + ($ρ 2 - $ρ 5) ^ 2) = S at hs
@@ -212,16 +212,16 @@ theorem repulsion_hasDerivAt (n : Nat) (ρ : Nat → ℝ) (h : PairRegular ρ) (
 
 theorem bond_untouched (ρ : Nat → ℝ) (s : Nat) (hs : 6 ≤ s) : bondGrad.gradR ρ s = 0 := by
   have e : ∀ j, j < 6 → (s == j) = false := fun j hj => beq_eq_false_iff_ne.mpr (by omega)
-  simp [Prog.gradR, bondGrad, List.lookup, e]
+  simp [Prog.gradR, Prog.gradRaw, bondGrad, List.lookup, e]
 
 theorem lj_untouched (ρ : Nat → ℝ) (s : Nat) (hs : 6 ≤ s) : ljGrad.gradR ρ s = 0 := by
   have e : ∀ j, j < 6 → (s == j) = false := fun j hj => beq_eq_false_iff_ne.mpr (by omega)
-  simp [Prog.gradR, ljGrad, List.lookup, e]
+  simp [Prog.gradR, Prog.gradRaw, ljGrad, List.lookup, e]
 
 theorem repulsion_untouched (n : Nat) (ρ : Nat → ℝ) (s : Nat) (hs : 6 ≤ s) :
     (repulsionGrad n).gradR ρ s = 0 := by
   have e : ∀ j, j < 6 → (s == j) = false := fun j hj => beq_eq_false_iff_ne.mpr (by omega)
-  simp [Prog.gradR, repulsionGrad, List.lookup, e]
+  simp [Prog.gradR, Prog.gradRaw, repulsionGrad, List.lookup, e]
 
 
 end OptRs.Lemmas
